@@ -2,7 +2,6 @@
 from __future__ import annotations
 
 import json
-import math
 from fractions import Fraction
 
 import numpy as np
@@ -14,7 +13,7 @@ from ..evidence import Run, canon_hash
 PID = "C14"
 SHARDS = {"quick": 6, "thorough": 16}
 SHARD_TIMEOUT = {"quick": 600, "thorough": 1700}
-N_RANDOM = {"quick": 900, "thorough": 100000}
+N_RANDOM = {"quick": 900, "thorough": 40000}
 
 
 def new_run():
